@@ -23,7 +23,13 @@ RULE = ("(1) spec on the real engine: operations from the fedlab operation gener
         "sprinkled at random: malformed stream), descriptors, 1-2 payloads (well-typed, then 0-5 mutations), data "
         "given whole to the primary fetch or sliced per defer layer, run through the real postprocess "
         "(extractDeferFetches, buildDeferTree) and the real Resolver.ResolveGraphQLDeferResponse under 1-3 seeded "
-        "release orders.  (3) plan level: for every generated operation the ancestor chain (alias, field name, type condition) of the "
+        "release orders; in 1/4 of the well-formed full-data plans one or two groups (preferably ones with a sibling defer) fail HARD in their "
+        "fetch phase (ResolveFetchNode returns a Go error: the rate limiter or the pre-fetch authorizer returns an error in the prepare "
+        "phase, or the subgraph answers a JSON array that the merge phase cannot merge -- a Load error or a soft deny does not take that "
+        "branch), and in 4/5 of those (and 1/12 of the others) every Flush but the first is slow: while it is in progress one more blocked group gets "
+        "its answer, so anything that is not serialised behind the DataBuffer lock shows up inside that Flush.  The writer records what every "
+        "Flush call hands over; flush_atomic (Go twin + extracted flushes_ok_b): exactly one frame per Flush, no writer call during a Flush, "
+        "no Flush after the frame with hasNext:false.  corpus/C10/hardfail_plans.txt holds the minimal sibling / nested plans per failure kind.  (3) plan level: for every generated operation the ancestor chain (alias, field name, type condition) of the "
         "selection set in which each defer id is first met, read off the normalised document by a walk of the harness, the supergraph "
         "as the collector reads it, and the DeferDescriptors of the real planner: the model's defer_path against the descriptor path "
         "(corr:C10/descpath) and the extracted checker desc_path_ok_b on the descriptor (descriptor_path).  A case is distinct by the hash of its line; non-trivial when at least two defer ids are "
@@ -111,7 +117,12 @@ def run(chk):
         "the text of a tree is flagged torn and not compared); leaves reuse the C02 pre-walk",
         "the model renders every batch on the data after all fetches (a group's fetch is a no-op on the data); slices per defer layer "
         "are exercised on the Go side only",
-        "subgraph errors, authorization, custom field renderers, extensions, rate limiting and hard fetch errors (ResolveDeferError) are outside the model",
+        "subgraph errors, authorization, custom field renderers, extensions, rate limiting and the FRAME of a hard fetch error (ResolveDeferError) are outside the model: "
+        "runs with a hard failure are not compared with the model's frames; the specification (stream_ok_b, flushes_ok_b, frames whole) runs on them",
+        "the DataBuffer lock and the writer's Flush boundaries are modelled in coq/C10/ModelFlush.v (Lock; write; Flush; Unlock per rendered group over the executor LTS; "
+        "the short lock sections of a group's prepare / merge phases are not modelled: they write nothing); the harness writer (c10lab.Recorder) hands over at each Flush "
+        "what was written since the previous one and can be slowed down (SlowFlush) -- hard failures and slow flushes exist on hand-built plans only, not end to end "
+        "(ExecutionEngine.Execute offers no option to install a rate limiter)",
         "of the planner, deferInfoCollector.deferPath / outermostListFieldIndex (descriptor path from the ancestor chain, list-ness from the "
         "schema field by name) is modelled (coq/C10/DescPath.v) and tied by comparing the model's path with the real DeferDescriptors of "
         "every generated operation; which selection set a defer id is attributed to (first direct field child carrying the id, document "
@@ -146,7 +157,8 @@ def run(chk):
     if b:
         vlib.digest_batch(chk, b[0], b[1], classify, state)
     # the two renderer-level witnesses of Properties.v (errors_reported_refuted, null_data_pending_refuted)
-    b = vlib.run_batch(chk, "%s witness -out {out}" % exe, model, "witness")
+    plans = os.path.join(vlib.ROOT, "corpus", "C10", "hardfail_plans.txt")
+    b = vlib.run_batch(chk, "%s witness -plans %s -out {out}" % (exe, plans), model, "witness")
     if b:
         vlib.digest_batch(chk, b[0], b[1], classify, state)
     n_spec, orders, allle = (300, 6, 3) if quick else (5000, 20, 4)
@@ -188,6 +200,10 @@ def run(chk):
         dist["corr_mode_slice"] = sum(1 for c in b[0] if "(mode slice)" in c)
         dist["corr_malformed_plans"] = sum(1 for c in b[0] if "(valid f)" in c)
         dist["corr_mutated_payloads"] = sum(1 for c in b[0] if '(mut "")' not in c)
+        dist["corr_hard_fetch_failure_runs"] = sum(1 for c in b[0] if "(fail)" not in c)
+        dist["corr_hard_failure_kinds"] = {k: sum(1 for c in b[0] if re.search(r"\(fail [^)]*\(\d+ %s\)" % k[0], c)) for k in ("1 rate limiter", "2 authorizer", "3 merge")}
+        dist["corr_slow_flush_runs"] = sum(1 for c in b[0] if "(window t)" in c)
+        dist["corr_hard_failure_with_slow_flush"] = sum(1 for c in b[0] if "(window t)" in c and "(fail)" not in c)
         dist["corr_descriptor_without_fetch"] = sum(1 for c in b[0] if "(nofetch)" not in c)
         fr = {}
         for c in b[0]:
